@@ -20,12 +20,17 @@ FC = "ampform.helicity.formulate_isobar_cg_coefficients"
 
 
 def _abstract_decay():
+    # real classes attached: a property or helper method that the code under contract calls on these records is interpreted from its source
+    from ampform.helicity import decay as D
+
+    swid, tbd = getattr(D, "StateWithID", None), getattr(D, "TwoBodyDecay", None)
+
     def state(tag):
         return Rec("StateWithID", {"particle": Rec("Particle", {"spin": SV(z3.Real(f"spin_{tag}"), "real")}), "spin_projection": SV(z3.Real(f"lambda_{tag}"), "real"),
-                                   "id": SV(z3.Int(f"id_{tag}"), "int")})
+                                   "id": SV(z3.Int(f"id_{tag}"), "int")}, swid)
 
     inter = Rec("Interaction", {"l_magnitude": SV(z3.Real("L"), "real"), "s_magnitude": SV(z3.Real("S"), "real")})
-    return Rec("TwoBodyDecay", {"parent": state("parent"), "children": (state("c1"), state("c2")), "interaction": inter})
+    return Rec("TwoBodyDecay", {"parent": state("parent"), "children": (state("c1"), state("c2")), "interaction": inter}, tbd)
 
 
 def _executor(search):
